@@ -4,6 +4,7 @@ EXTENDS MemTrack
 ShapesQuick    == {<<0, 4>>, <<3, 8>>}
 ShapesThorough == {<<0, 4>>, <<3, 8>>, <<2, 1>>}
 ShapesPool4    == {<<3, 8>>}
+HugeAll == {-1, -2, -3}
 ObsEmit(op, args, ret, post) ==
     PrintT(ToJson([pre |-> Pre, op |-> op, args |-> args, ret |-> ret, post |-> post]))
 ================================================================================
